@@ -13,6 +13,33 @@ import (
 // C01 — relaying leaves everything the proxy does not own untouched (DESIGN.md §4 C01).
 
 var c01A, c01B *EnumSpec
+var c01InA, c01InB func(v []int) c01In
+
+type c01Aged struct {
+	w *RelayWorld
+	n int
+}
+
+func c01AgedSpecs() []*AgedSpec {
+	mk := func(sp *EnumSpec, toIn func(v []int) c01In, key func(v []int) string) *AgedSpec {
+		return &AgedSpec{Spec: sp, Group: key,
+			Open:  func(v []int) any { return &c01Aged{w: StartRelayWorld(SimOpts{}, toIn(v).cfg)} },
+			Close: func(w any) { w.(*c01Aged).w.Close() },
+			Eval: func(w any, v []int) (string, string) {
+				a := w.(*c01Aged)
+				a.n++
+				cl, d, _ := c01RunIn(a.w, toIn(v), a.n)
+				return cl, d
+			}}
+	}
+	return []*AgedSpec{
+		mk(c01A, c01InA, func(v []int) string { return "A:kind=" + c01A.Val(v, "kind") + ",clname=" + c01A.Val(v, "clname") }),
+		mk(c01B, c01InB, func(v []int) string {
+			s := c01B
+			return fmt.Sprintf("B:path=%s,arrival=%s,received=%s,mustrr=%s,keep=%s", s.Val(v, "path"), s.Val(v, "arrival"), s.Val(v, "received"), s.Val(v, "mustrr"), s.Val(v, "keep"))
+		}),
+	}
+}
 
 var c01Big16k = strings.Repeat("0123456789abcdef;,%\"<>", 745)[:16384]
 
@@ -154,16 +181,34 @@ func c01Others(m *WMsg) []WHdr {
 }
 
 func c01Run(in c01In) (string, string, bool) {
+	if c01Build(in) == nil {
+		return "", "", false
+	}
+	w := StartRelayWorld(SimOpts{}, in.cfg)
+	defer w.Close()
+	return c01RunIn(w, in, 0)
+}
+
+func c01RunIn(w *RelayWorld, in c01In, seq int) (string, string, bool) {
 	m := c01Build(in)
 	if m == nil {
 		return "", "", false
+	}
+	if seq > 0 {
+		// an aged world: a transaction of its own
+		for i := range m.Hdrs {
+			switch canonName(m.Hdrs[i].Name) {
+			case "call-id":
+				m.Hdrs[i].Value = fmt.Sprintf("c01-%d@host", seq)
+			case "via":
+				m.Hdrs[i].Value = strings.Replace(m.Hdrs[i].Value, "z9hG4bKua", fmt.Sprintf("z9hG4bKua%d", seq), 1)
+			}
+		}
 	}
 	raw := m.Render()
 	if in.arrival == "udp" && len(raw) > 65000 {
 		return "", "", false
 	}
-	w := StartRelayWorld(SimOpts{}, in.cfg)
-	defer w.Close()
 	w.Observe()
 	if in.arrival == "tcp" {
 		w.SendTCP(w.Client("c1", "127.0.0.9", "127.0.0.1:5062"), raw)
@@ -331,7 +376,8 @@ func init() {
 		}
 		return true
 	}
-	c01A.Eval = func(v []int) (string, string, bool) {
+	c01A.Eval = func(v []int) (string, string, bool) { return c01Run(c01InA(v)) }
+	c01InA = func(v []int) c01In {
 		s := c01A
 		var hs []WHdr
 		for _, n := range []string{"h1", "h2", "h3"} {
@@ -350,7 +396,7 @@ func init() {
 		case "pipelined-tcp":
 			in.arrival, in.pipelined = "tcp", true
 		}
-		return c01Run(in)
+		return in
 	}
 	// (B) path / configuration / start-line enumeration with reduced content
 	var uris []string
@@ -389,7 +435,8 @@ func init() {
 		}
 		return true
 	}
-	c01B.Eval = func(v []int) (string, string, bool) {
+	c01B.Eval = func(v []int) (string, string, bool) { return c01Run(c01InB(v)) }
+	c01InB = func(v []int) c01In {
 		s := c01B
 		var hs []WHdr
 		if x := s.Val(v, "h1"); x != "absent" {
@@ -399,13 +446,28 @@ func init() {
 		in := c01In{path: s.Val(v, "path"), arrival: s.Val(v, "arrival"), departure: s.Val(v, "departure"), method: s.Val(v, "method"), status: st,
 			ruri: c01URIs[s.Val(v, "ruri")], extra: hs, clname: "Content-Length", body: c01Body(s.Val(v, "body")), cfg: c01Cfg(s.Val(v, "received"), s.Val(v, "mustrr"), s.Val(v, "keep")),
 			parties: s.Val(v, "parties")}
-		return c01Run(in)
+		return in
 	}
 	addCheck(&Check{ID: "C01", Level: "exploration",
-		Rule:   "two complete products on fresh simulated worlds: (A) content: all sequences of 0-2 (thorough 0-3) extension headers over an 18-shape alphabet (compact/odd-case/repeated names, empty value, %, quotes, separators, UTF-8, bytes >= 0x80, 16 KiB value) x position x 7 body classes (incl. NUL/CR/LF soup, SIP-like body, 4097 B, 60 KiB of all byte values) x Content-Length spelling x {request to backend, response, request by Route over TCP}; (B) paths: {backend, Route, static route, response by Via} x arrival UDP/TCP x departure UDP/TCP x received/must-record-route/keep-next-hop x 14 Request-URI forms x methods / status codes x header x body x 5 From/To shapes (mixed-case hosts, decorated URIs, tel/urn, addr-spec form; in-dialog so that dialog identifiers are computed); plus three requests pipelined on one TCP connection; the emission is read by the independent reader; non-trivial = the message was relayed",
+		Rule:   "two complete products on fresh simulated worlds: (A) content: all sequences of 0-2 (thorough 0-3) extension headers over an 18-shape alphabet (compact/odd-case/repeated names, empty value, %, quotes, separators, UTF-8, bytes >= 0x80, 16 KiB value) x position x 7 body classes (incl. NUL/CR/LF soup, SIP-like body, 4097 B, 60 KiB of all byte values) x Content-Length spelling x {request to backend, response, request by Route over TCP}; (B) paths: {backend, Route, static route, response by Via} x arrival UDP/TCP x departure UDP/TCP x received/must-record-route/keep-next-hop x 14 Request-URI forms x methods / status codes x header x body x 5 From/To shapes (mixed-case hosts, decorated URIs, tel/urn, addr-spec form; in-dialog so that dialog identifiers are computed); plus three requests pipelined on one TCP connection; the emission is read by the independent reader; second pass: all cases of one configuration class fed into ONE long-lived world; non-trivial = the message was relayed",
 		Assume: []string{"well-formed messages of the stated domain (CRLF, single blanks, explicit Content-Length, no folding)"},
-		Run:    func(c *Ctx) { c01A.Run(c); c01B.Run(c) },
+		Run: func(c *Ctx) {
+			c01A.Run(c)
+			c01B.Run(c)
+			for _, a := range c01AgedSpecs() {
+				a.Run(c)
+			}
+		},
 		Replay: func(c *Ctx, raw json.RawMessage) string {
+			var ag AgedCase
+			if json.Unmarshal(raw, &ag) == nil && len(ag.Vectors) > 0 {
+				for _, a := range c01AgedSpecs() {
+					if strings.HasPrefix(ag.Group, "A:") == (a.Spec == c01A) {
+						cl, _ := a.Replay(raw)
+						return cl
+					}
+				}
+			}
 			var cs struct {
 				Vals map[string]string `json:"values"`
 			}
